@@ -1283,6 +1283,8 @@ class dictable(Dict):
             raise ValueError('x must be columns %s'%x)
         agg = as_list(agg)
         x = as_tuple(x)
+        if len(self) == 0: # nothing to pivot: no rows, just the key columns (as listby and groupby do)
+            return type(self)([], list(x))
         xykeys = x + as_tuple(y)
         xys, ids = self._listby(xykeys)
         zs = self[z]
